@@ -60,6 +60,8 @@ const (
 	fObjMethod0     // ({f(){B}});
 	fUseArr         // [n];
 	fUseObjKV       // ({k:n});
+	fArrowBare      // q=n=>m;   (no parentheses anywhere: the identifier is first read as a use)
+	fAsyncArrowBare // q=async n=>{B};
 	numForms
 )
 
@@ -71,7 +73,7 @@ type sk struct {
 
 func (f skForm) bodies() int {
 	switch f {
-	case fFuncDecl, fFuncDeclParam, fClassMethod, fBlock, fForLet, fForVarOf, fForConstOf, fForIn, fTryCatchNoBinding, fFuncExprNamed, fFuncExprParam, fArrowParen, fAsyncArrow, fParamDefault, fDefaultOuter, fSwitchLet, fClassExprNamed, fObjMethod, fObjMethod0:
+	case fFuncDecl, fFuncDeclParam, fClassMethod, fBlock, fForLet, fForVarOf, fForConstOf, fForIn, fTryCatchNoBinding, fFuncExprNamed, fFuncExprParam, fArrowParen, fAsyncArrow, fParamDefault, fDefaultOuter, fSwitchLet, fClassExprNamed, fObjMethod, fObjMethod0, fAsyncArrowBare:
 		return 1
 	case fTryCatch, fIfBlock:
 		return 2
@@ -81,7 +83,7 @@ func (f skForm) bodies() int {
 
 func (f skForm) usesM() bool {
 	switch f {
-	case fVarInit, fFuncDeclParam, fForLet, fForVarOf, fForConstOf, fForIn, fArrowSingle, fLetObj, fLetArr, fSwitchLet, fParenList, fParenAssign:
+	case fVarInit, fFuncDeclParam, fForLet, fForVarOf, fForConstOf, fForIn, fArrowSingle, fLetObj, fLetArr, fSwitchLet, fParenList, fParenAssign, fArrowBare:
 		return true
 	}
 	return false
@@ -276,7 +278,7 @@ func (r *resolver) declare(list []*sk, s *rscope, funcLevel bool) {
 			fs := newScope(scFunc, ns)
 			r.scopeOf[k] = []*rscope{ns, fs}
 			r.declare(k.b1, fs, true)
-		case fFuncExprParam, fArrowParen, fAsyncArrow, fObjMethod:
+		case fFuncExprParam, fArrowParen, fAsyncArrow, fObjMethod, fAsyncArrowBare:
 			fs := newScope(scFunc, s)
 			r.declParam(fs, k.n)
 			r.scopeOf[k] = []*rscope{fs}
@@ -285,7 +287,7 @@ func (r *resolver) declare(list []*sk, s *rscope, funcLevel bool) {
 			fs := newScope(scFunc, s)
 			r.scopeOf[k] = []*rscope{fs}
 			r.declare(k.b1, fs, true)
-		case fArrowSingle:
+		case fArrowSingle, fArrowBare:
 			fs := newScope(scFunc, s)
 			r.declParam(fs, k.n)
 			r.scopeOf[k] = []*rscope{fs}
@@ -493,6 +495,20 @@ func (w *renderer) list(list []*sk, s *rscope) {
 			w.raw("=>")
 			w.id(sc[0], k.m, false)
 			w.raw(");")
+		case fArrowBare:
+			w.id(s, "q", false)
+			w.raw("=")
+			w.id(sc[0], k.n, false)
+			w.raw("=>")
+			w.id(sc[0], k.m, false)
+			w.raw(";")
+		case fAsyncArrowBare:
+			w.id(s, "q", false)
+			w.raw("=async ")
+			w.id(sc[0], k.n, false)
+			w.raw("=>{")
+			w.list(k.b1, sc[0])
+			w.raw("};")
 		case fParamDefault:
 			w.raw("(function(")
 			w.id(sc[0], k.n, false)
